@@ -472,6 +472,30 @@ pub fn expiry_scenarios(seed: u64, n: usize) -> Vec<Scenario> {
             }
         }
     }
+    // C15 with a clock: the idle list is full, its entries expire while other requests are still in flight, then those
+    // are released: expired-but-retained connections still count
+    for max in [1usize, 2] {
+        for extra in [1usize, 2] {
+            let mut c = default_config();
+            c.idle_timeout_ms = Some(60);
+            c.max_idle_per_host = max;
+            let k = max + extra;
+            let mut ops = vec![];
+            for r in 0..k {
+                ops.extend([Op::Issue { origin: 0, h2: false }, Op::Poll(r), Op::DialOk(r), Op::Poll(r), Op::HsOk(r), Op::Poll(r)]);
+            }
+            for r in 0..max {
+                ops.extend([Op::Respond(r), Op::Poll(r), Op::BodyDone(r), Op::Bg, Op::Bg]);
+            }
+            ops.push(Op::Sleep(130));
+            for r in max..k {
+                ops.extend([Op::Respond(r), Op::Poll(r), Op::BodyDone(r), Op::Bg, Op::Bg]);
+            }
+            let mut s = Scenario::new("idle-list-full-then-expired-then-more-releases", c, ops);
+            s.max_reqs = k + 2;
+            out.push(s);
+        }
+    }
     for (timeout, gap, rounds) in [(200u64, 40u64, 8usize), (150, 30, 8)] {
         let mut c = default_config();
         c.idle_timeout_ms = Some(timeout);
@@ -773,7 +797,7 @@ pub fn run(args: &Args) -> Report {
     rep.merge(part);
 
     // idle expiry (real time): only for the properties that need it
-    if args.wants("C05") || args.wants("C04") {
+    if args.wants("C05") || args.wants("C04") || args.wants("C15") {
         let ex = expiry_scenarios(args.seed, if thorough { 3200 } else { 320 });
         let exr = &ex;
         let part = crate::report::parallel(args.threads, ex.len() as u64, "poollab", |i, r| {
